@@ -46,6 +46,7 @@ type c18snap struct {
 	MemCap   int64          `json:"cache_mem_cap"`
 	Interval int64          `json:"janitor_interval_ns"`
 	Events   int64          `json:"notifications"`
+	Restart  bool           `json:"restart_required"` // the process-wide "a restart is needed" state the API reports
 }
 
 type c18result struct {
@@ -95,7 +96,7 @@ func auxCfgApply(args []string) {
 		return
 	}
 	snap := func() *c18snap {
-		s := &c18snap{Values: cfgWalk(cfg), Events: events.Load(), Interval: lastInterval.Load()}
+		s := &c18snap{Values: cfgWalk(cfg), Events: events.Load(), Interval: lastInterval.Load(), Restart: config.IsRestartNeeded()}
 		fb, _ := os.ReadFile("var/config.json")
 		h := sha256.Sum256(fb)
 		s.FileSHA, s.FileLen, s.File = hex.EncodeToString(h[:8]), len(fb), string(fb)
@@ -227,7 +228,7 @@ func c18docs(b core.Batch) []c18doc {
 		switch i % 8 {
 		case 0:
 			for _, bad := range []map[string]any{{"cache.max_cache_size": "0B"}, {"cache.cleanup_interval": "0s"}, {"cache.cleanup_interval": "-5s"}, {"cache.memory.memory_budget_percent": 101}, {"cache.memory.memory_budget_percent": -1},
-				{"cache.type": "disk"}, {"cache.file.dir": ""}, {"proxy.listen": ""}, {"webserver.listen": ""}, {"proxy.ca_cert": ""}} {
+				{"cache.type": "disk"}, {"cache.type": "File"}, {"cache.type": "MEMORY"}, {"cache.type": " file"}, {"cache.file.dir": ""}, {"proxy.listen": ""}, {"webserver.listen": ""}, {"proxy.ca_cert": ""}} {
 				add("invalid-value", bad)
 			}
 		case 1:
@@ -240,6 +241,9 @@ func c18docs(b core.Batch) []c18doc {
 			for k := 0; k < 6; k++ {
 				v := valid()
 				bad := []map[string]any{{"cache.cleanup_interval": "0s"}, {"cache.max_cache_size": "0B"}, {"cache.type": "disk"}, {"cache.max_cache_size": 7}, {"logging.level": "LOUD"}, {"cache.memory.memory_budget_percent": 500}}[k]
+				if k%2 == 1 {
+					v["proxy.listen"] = fmt.Sprintf(":%d", 2000+rng.IntN(500)) // a restart-bound setting next to the failing one
+				}
 				for kk, vv := range bad {
 					v[kk] = vv
 				}
@@ -355,6 +359,9 @@ func c18snapDiff(a, b *c18snap, withEvents bool) []string {
 	if withEvents && a.Events != b.Events {
 		d = append(d, fmt.Sprintf("listeners notified %d times", b.Events-a.Events))
 	}
+	if a.Restart != b.Restart {
+		d = append(d, fmt.Sprintf("restart-required state: %v -> %v", a.Restart, b.Restart))
+	}
 	return d
 }
 
@@ -432,7 +439,7 @@ func c18files(b core.Batch) []c18file {
 		emit("unknown-key", sec+".nope", m)
 	}
 	for _, bad := range []map[string]any{{"cache.max_cache_size": "0B"}, {"cache.cleanup_interval": "0s"}, {"cache.cleanup_interval": "-5s"}, {"cache.memory.memory_budget_percent": 101}, {"cache.memory.memory_budget_percent": -1},
-		{"cache.type": "disk"}, {"cache.file.dir": ""}, {"proxy.listen": ""}, {"webserver.listen": ""}, {"proxy.ca_cert": ""}, {"cache.lock_shards": 0}, {"cache.lock_shards": -3}, {"logging.level": "LOUD"}} {
+		{"cache.type": "disk"}, {"cache.type": "File"}, {"cache.type": "Memory"}, {"cache.file.dir": ""}, {"proxy.listen": ""}, {"webserver.listen": ""}, {"proxy.ca_cert": ""}, {"cache.lock_shards": 0}, {"cache.lock_shards": -3}, {"logging.level": "LOUD"}} {
 		m := fresh()
 		for path, v := range bad {
 			mm, k := at(m, path)
@@ -625,6 +632,8 @@ func c18Run(b core.Batch, r *core.Recorder) {
 						what = "file-changed"
 					case res.S0.Events != res.S1.Events:
 						what = "listeners-notified"
+					case res.S0.Restart != res.S1.Restart:
+						what = "restart-required-raised"
 					}
 					sig := "C18:rejected-but-" + what + ":" + c18class(d)
 					if d.Fsize >= 0 {
@@ -757,8 +766,8 @@ func init() {
 	core.Register(&core.Monitor{
 		ID:    "C18",
 		Level: "fault_enumeration",
-		Rule: "update documents of classes valid (random subsets of 10 settings), invalid-value (10 forms), ill-typed (10 forms), valid-plus-failing (6 forms; Go's map order decides what is staged first, so they are repeated), unknown-key / empty / wrong-shape (8 forms), boundary (12 forms: lock_shards 0/-3/1, budget 0/100, 1B, 1ns, cache type switches, negative backups, default_max_age 0/-1h) applied one after the other to a live worker process (real cache + janitor + proxy, a recorder subscribed to every property); " +
-			"snapshots before/after each (all effective values, file bytes, limits the cache enforces, janitor interval, notifications). Accepted configurations (distinct files, capped) are loaded by a fresh process which starts a cache + proxy and serves two requests. Write failures: RLIMIT_FSIZE = n for n swept over the file length. Configuration files: the default document with every leaf / section removed in turn, every leaf set to null / another JSON type / empty / negative, unknown keys at every level, invalid values, valid changes, torn and non-configuration files, each loaded by a fresh process that must then start, serve two requests, show its settings and accept one valid update (a refused file must leave exactly the defaults in force). Non-trivial = distinct (class, document, failure point).",
+		Rule: "update documents of classes valid (random subsets of 10 settings), invalid-value (13 forms incl. cache.type in another letter case), ill-typed (10 forms), valid-plus-failing (6 forms; Go's map order decides what is staged first, so they are repeated), unknown-key / empty / wrong-shape (8 forms), boundary (12 forms: lock_shards 0/-3/1, budget 0/100, 1B, 1ns, cache type switches, negative backups, default_max_age 0/-1h) applied one after the other to a live worker process (real cache + janitor + proxy, a recorder subscribed to every property); " +
+			"snapshots before/after each (all effective values, file bytes, limits the cache enforces, janitor interval, notifications, the restart-required state). Accepted configurations (distinct files, capped) are loaded by a fresh process which starts a cache + proxy and serves two requests. Write failures: RLIMIT_FSIZE = n for n swept over the file length. Configuration files: the default document with every leaf / section removed in turn, every leaf set to null / another JSON type / empty / negative, unknown keys at every level, invalid values, valid changes, torn and non-configuration files, each loaded by a fresh process that must then start, serve two requests, show its settings and accept one valid update (a refused file must leave exactly the defaults in force). Non-trivial = distinct (class, document, failure point).",
 		Assumptions: []string{"a 5xx answer under an accepted configuration is C09's subject; only panics, process death and unanswered requests make a configuration unworkable here", "settling time of 25 ms for asynchronous listeners before the after-snapshot"},
 		Plan:        c18Plan,
 		Run:         c18Run,
